@@ -179,6 +179,17 @@ int ops_geo(int n, char **a) {
         free(out); freePolygon(&p);
         return 1;
     }
+    if ((isop(op, "polytable") || isop(op, "polycompact")) && n >= 5) {
+        // polytable res flags <polygon> ; polycompact res flags <polygon>
+        void verif_polytable(const GeoPolygon *polygon, int res);
+        void verif_polycompact(const GeoPolygon *polygon, int res, uint32_t flags);
+        int res = (int)pI(a[1]); uint32_t flags = (uint32_t)pI(a[2]);
+        GeoPolygon p;
+        if (parsePolygon(n, a, 3, &p) < 0 || p.geoloop.numVerts == 0 || res < 0 || res > 15) return 0;
+        if (isop(op, "polytable")) verif_polytable(&p, res); else verif_polycompact(&p, res, flags);
+        freePolygon(&p);
+        return 1;
+    }
     if (isop(op, "polyprims") && n >= 4) {
         // polyprims <cell> <polygon>
         H3Error verif_polyprims(const GeoPolygon *polygon, H3Index cell, int out[8]);
